@@ -278,6 +278,12 @@ def check_C02(ctx):
                 if not errors and nerr != m.truth[3] and kshown < 4:
                     kshown += 1
                     ctx.violation(f"[C02] {r} reporter: {nerr} error elements for {m.truth[3]} abnormally ended tests", f"# reporter: {r}\n" + s.text(), found_input=True, facts=dict(c02_facts(s, m), rep=r))
+            if r == "libxml" and status_of(o) in ("0", "1"):
+                # ... and counted once: in the counts of its own suite, in no other suite's (every suite file carries its suite's counts)
+                e = oracle_C03(s, m, o, "libxml")
+                if e and kshown < 6:
+                    kshown += 1
+                    ctx.violation(f"[C02] a test that ended abnormally is not counted exactly once, in its own suite: {e}", f"# reporter: {r}\n" + s.text(), found_input=True, facts=dict(c02_facts(s, m), rep=r))
     ctx.coverage["differential_pairs"] = len(sub)
     ctx.coverage["samples"] = sample_of(scens)
     ctx.coverage["evaluations"] = ctx.coverage["correspondence"]["cases"] + 2 * len(sub) + len(kobs)
@@ -609,6 +615,20 @@ def check_C17(ctx):
             continue
         c = sc.copy(); c.mode = "single:" + t.name; c.kill = None
         scens.append(c)
+    # a test's process dying at every named point of its life, in every way - also after its completion notice, where only the
+    # message handed to finish_test() tells a reporter that the test was killed
+    # (not between a result's display and its delivery: CDash and the XML reporters display in the test's process, so an entry
+    # whose record was never delivered is what such a death looks like, not a disagreement about what was counted)
+    n = 0
+    for point in KILL_POINTS:
+        for how in KILL_HOWS:
+            n += 1
+            if point == "before_write" or (ctx.tier == "quick" and point not in ("after_completion", "at_exit") and (n + ctx.seed) % 2):
+                continue
+            v = T("v", body=["P", "F", "P"]) if n % 2 else T("v", ctx=1, body=["P"], setup=["P"], teardown=["P"])
+            tests = [T("a", body=["P"]), v, T("b", body=["P", "P"])]
+            root = S("top", items=tests) if n % 3 else S("top", items=[S("inner", items=tests[:2]), tests[2]])
+            scens.append(Scen(root, kill=(point, 1, how, "v")))
     reps = REPORTERS_ALL
     models = run_model_scenarios([s.text() for s in scens])
     obs = bench.run_many([(s.text(), r) for s in scens for r in reps])
